@@ -196,3 +196,51 @@ def abi_stoichiometry(q, a, b, c, d, opt):
         if [int(args["sto"][s_ * nr + r]) for r in range(nr)] != want_sto:
             return False
     return True
+
+
+def _same_reaction(x, y):
+    labels = ["A", "B", "C"]
+    def kk(k):
+        if isinstance(k, dict):
+            return sorted((e, si(v)) for e, v in k.items())
+        return si(k)
+    return x.ssto(labels) == y.ssto(labels) and x.psto(labels) == y.psto(labels) and kk(x.kf) == kk(y.kf) and kk(x.kr) == kk(y.kr)
+
+
+def split_after_edit(how, form, us):
+    """A Reaction object is mutable: after split() / K were already evaluated once, its constants are edited (kf setter: how 0, kr
+    setter: 1, set_k: 2, units system replaced: 3, per-environment dictionary edited in place: 4) with scalar / dictionary values;
+    splitting AGAIN must give the two halves of a FRESH reaction with the edited content, and K the ratio of the current constants."""
+    kf0, kr0 = ({"e0": 2.0, "default": 5.0}, {"e0": 4.0, "default": 0.5}) if form else (2.0, 4.0)
+    r = Reaction("A + 2 B -> C", kf=kf0, kr=kr0, units_system=SYS[us])
+    r.split()
+    r.K
+    new = {"e0": 3.0, "default": 7.0} if form else 3.0
+    if how == 0:
+        r.kf = new
+    elif how == 1:
+        r.kr = new
+    elif how == 2:
+        r.set_k(new, new if not form else {"e0": 9.0, "default": 1.5})
+    elif how == 3:
+        r.units_system = SYS["G" if us != "G" else "B"]
+    else:
+        if not form:
+            return True
+        r.kr["e0"] = UnitValue(11.0, r.kr["e0"].units) if hasattr(r.kr["e0"], "units") else 11.0
+    f, v = r.split()
+    def plain(k):
+        return {e: x.copy() for e, x in k.items()} if isinstance(k, dict) else k.copy()
+    fresh = Reaction("A + 2 B -> C", kf=plain(r.kf), kr=plain(r.kr), units_system=r.units_system.copy())
+    f2, v2 = fresh.split()
+    if not (_same_reaction(f, f2) and _same_reaction(v, v2)):
+        return False
+    # the halves carry the CURRENT constants
+    def kk(k):
+        return sorted((e, si(x)) for e, x in k.items()) if isinstance(k, dict) else si(k)
+    if kk(f.kf) != kk(r.kf) or kk(v.kf) != kk(r.kr):
+        return False
+    K, K2 = r.K, fresh.K
+    if isinstance(K, dict):
+        return sorted(K) == sorted(K2) and all((K[e] is None and K2[e] is None) or abs(si(K[e]) - si(K2[e])) <= 1e-12 * abs(si(K2[e])) for e in K)
+    return (K is None and K2 is None) or abs(si(K) - si(K2)) <= 1e-12 * abs(si(K2))
